@@ -226,7 +226,9 @@ prop("C14",
            "of the init calls run with their allocation failing, through the allocator monitor); oracles: injected "
            "call returns 0 and leaves output buffer and schedule image untouched, every other record equals the twin history "
            "without injections, API model agrees (valid calls return 1), guard zones / ASan silent; non-trivial = an injected "
-           "call is followed by an output-producing valid call"),
+           "call is followed by an output-producing valid call; coverage.invalid_call_matrix accounts for the statement's matrix: every "
+           "injected call is classified as function / class of invalid argument @ object state (zeroed, failed, fresh, keyed, "
+           "midstream, cleaned; from the library's own return values) and the 340 cells the statement names are reported as hit / never generated"),
      assumptions=MODEL_ASSUME + BUILD_ASSUME + ["second unit: gcc -O1 ASan+UBSan build (alignment check off: SKINNY_UNALIGNED is the documented assumption on x86) with every buffer in its own heap block"],
      technique="stateful property-based testing (rapidcheck) with fault-injected calls: twin differential + API model + ASan",
      text=("Generated valid histories with injected invalid calls; the injected call must return 0 and be unobservable afterwards "
